@@ -17,7 +17,7 @@ ASSUMPTIONS = [
     "the parent link of the copy's root is not constrained by the statement",
     "sharing of immutable values (strings) between copy and original is not 'mutable state'",
 ]
-REQUIRED = ["copies", "edits_on_copy", "edits_on_original", "aliasing_checks", "inner_node_copies", "copies_with_shared_nsmap_in_original"]
+REQUIRED = ["cross_session_documents", "copies", "edits_on_copy", "edits_on_original", "aliasing_checks", "inner_node_copies", "copies_with_shared_nsmap_in_original"]
 EXHAUSTIVE = {"quick": False, "thorough": False}
 
 EDITS = ("content", "tail", "prefix", "name", "attr_add", "attr_overwrite", "attr_remove", "extras_add", "ns_declare", "ns_redeclare",
@@ -206,12 +206,50 @@ def one_tree(ctx, size, i):
     emlkit.discard(t)
 
 
+def cross_session(ctx):
+    """A document written by an earlier interpreter session and loaded here keeps its ids; ids handed out in this session (to
+    copies) must not collide with them.  Done first, while this process has created next to nothing."""
+    import subprocess
+    import sys
+    from vlib import srcroot
+    from metapype.model import metapype_io
+    code = ("import sys; sys.path.insert(0, %r); import logging; logging.disable(logging.CRITICAL)\n"
+            "from metapype.model.node import Node\nfrom metapype.model import metapype_io\n"
+            "r = Node('dataset')\nnodes = [r]\n"
+            "for i in range(80):\n    c = Node('n%%d' %% (i %% 5), content='x'); nodes[i // 3].add_child(c); nodes.append(c)\n"
+            "r2 = r.copy()\nsys.stdout.write(metapype_io.to_json(r2))\n") % srcroot.SRC
+    try:
+        out = subprocess.run([sys.executable, "-B", "-c", code], capture_output=True, text=True, timeout=120)
+        loaded = metapype_io.from_json(out.stdout)
+    except Exception as e:
+        ctx.inconclusive_because(f"cross-session document could not be produced/loaded: {type(e).__name__}")
+        return
+    ctx.count("cross_session_documents")
+    for src in [loaded] + list(loaded.children)[:3]:
+        ids_before = set(Node.store.keys())
+        c = src.copy()
+        ctx.evaluated()
+        check_copy(ctx, loaded, src, c, ids_before, lambda: {"cross_session": True})
+        fresh = Node("verifFresh")
+        if fresh.id in ids_before:
+            ctx.violation("new-node-reuses-existing-id", "a node created after loading a document from an earlier session carries an id of that document",
+                          {"cross_session": True})
+        emlkit.discard(c, fresh)
+    emlkit.discard(loaded)
+
+
 def run(ctx, params):
+    cross_session(ctx)
     for i in range(params["trees"]):
         one_tree(ctx, ctx.rng.choice([1, 2, 3, 5, 8, 12, 25, 60]), i)
 
 
 def replay(ctx, witness):
+    if witness.get("cross_session"):
+        cross_session(ctx)
+        ctx.distinct(1)
+        ctx.distinct(2)
+        return
     plain, src_index = witness["tree"], witness.get("copied_index", 0)
     t = snapshot.from_plain(Node, plain)
     if witness.get("share"):
